@@ -32,6 +32,19 @@ def cases(rng, tier):
         for a, b in ((1, 1), (2, 1), (1, 3), (3, 3), (5, 2), (0, 3), (4, 0), (n0, 0), (0, n0 + 1), (n0 - 1, 0)):
             s = gen.spell(gen.arrange((a, b, n0), rng), rng)
             yield Case(block(s), {"kind": "boundary"})
+    # the 18-neutral regime boundary with every small charge composition, and lopsided compositions in every regime
+    for n0 in (17, 18, 19, 24):
+        for a in range(1, 9):
+            for b in range(1, 9):
+                if (a, b) in ((1, 1), (2, 1), (1, 3), (3, 3), (5, 2)) and n0 != 24:
+                    continue
+                s = gen.spell(gen.arrange((a, b, n0), rng), rng)
+                yield Case(block(s), {"kind": "boundary-18"})
+    for k in (13, 14, 15, 19, 20, 24, 30):
+        for m in (1, 2, 3):
+            for comp in ((k, m, 0), (m, k, 0), (k, m, 18), (m, k, 18), (k, m, 20), (m, k, 30)):
+                s = gen.spell(gen.arrange(comp, rng), rng)
+                yield Case(block(s), {"kind": "lopsided"})
     for a, b in ((3, 3), (4, 3), (3, 4), (10, 10), (11, 10), (1, 12), (12, 1)):
         s = gen.spell(gen.arrange((a, b, 0), rng), rng)
         yield Case(block(s), {"kind": "boundary-noneut"})
